@@ -1,6 +1,7 @@
 package main
 
 import (
+	"os"
 	"fmt"
 	"go/token"
 	"go/types"
@@ -534,7 +535,11 @@ func (g *gmectx) errorInfeasible(r *ssa.Return, firstEffect ssa.Instruction, isE
 		}
 		// completed before any effect: the loop's range instruction dominates the first effect and no effect lies inside it
 		if !dominatesInstr(vl.Range, firstEffect) {
-			continue
+			// or: no way to the first effect avoids the loop (e.g. an earlier rejection that skips it also skips the effects)
+			acs := newCondSpaceAvoid(upd, nil, map[*ssa.BasicBlock]bool{vl.Range.Block(): true})
+			if acs.err != "" || acs.Satisfiable(acs.Reach(firstEffect)) {
+				continue
+			}
 		}
 		inside := false
 		for b := range vl.Blocks {
@@ -573,7 +578,11 @@ func (g *gmectx) errorInfeasible(r *ssa.Return, firstEffect ssa.Instruction, isE
 				bad = or(bad, vcs.Reach(vr))
 			}
 		}
-		if imp, _ := vcs.Implies(and(vcs.ReachBlock(vl.body()), vcs.Or(vcs.Atom("nilEntry"), vcs.Atom("emptyList"))), bad); imp {
+		imp, dbgWit := vcs.Implies(and(vcs.ReachBlock(vl.body()), vcs.Or(vcs.Atom("nilEntry"), vcs.Atom("emptyList"))), bad)
+		if os.Getenv("VERIF_DEBUG") != "" {
+			fmt.Println("DEBUG validation loop candidate at", p.ipos(vl.Range), "imp", imp, dbgWit)
+		}
+		if imp {
 			return true, fmt.Sprintf("%s fails only for an empty endpoint list, and the loop at %s has already rejected every nil/empty entry of the same option map before the first effect", calleeOf(&srcCall.Call).Name(), p.ipos(vl.Range))
 		}
 	}
